@@ -396,24 +396,25 @@ def _compile_objects(
     # since CFFI logs into root logger
     old_handlers = root_logger.handlers.copy()
     root_logger.handlers = [logging.StreamHandler(f)]
-    with redirect_stdout(f):
-        ffibuilder.compile(tmpdir=cache_dir, verbose=True, debug=cffi_debug)
-    s = f.getvalue()
-    if cffi_verbose:
-        print(s)
+    try:
+        with redirect_stdout(f):
+            ffibuilder.compile(tmpdir=cache_dir, verbose=True, debug=cffi_debug)
+        s = f.getvalue()
+        if cffi_verbose:
+            print(s)
 
-    logger.info(f"JIT C compiler finished in {time.time() - t0:.4f}")
+        logger.info(f"JIT C compiler finished in {time.time() - t0:.4f}")
 
-    # Create a "status ready" file. If this fails, it is an error,
-    # because it should not exist yet.
-    # Copy the stdout verbose output of the build into the ready file
-    fd = open(ready_name, "x")
-    fd.write(s)
-    fd.close()
-
-    # Copy back the original handlers (in case someone is logging into
-    # root logger and has custom handlers)
-    root_logger.handlers = old_handlers
+        # Create a "status ready" file. If this fails, it is an error,
+        # because it should not exist yet.
+        # Copy the stdout verbose output of the build into the ready file
+        fd = open(ready_name, "x")
+        fd.write(s)
+        fd.close()
+    finally:
+        # Copy back the original handlers (in case someone is logging into
+        # root logger and has custom handlers), also when the build fails
+        root_logger.handlers = old_handlers
 
     return code_body
 
